@@ -1,9 +1,11 @@
 #include "hx.hpp"
 #include "hx_fault.hpp"
+#include "hx_limits.hpp"
 int main(int argc, char** argv) {
   verif::Ctx C(argc, argv);
   if (C.mode == "bfs") hx::runLevel(C);
   else if (C.mode == "fault") hx::runFault(C);
+  else if (C.mode == "limits") hx::runLimits(C);
   else { fprintf(stderr, "unknown mode %s\n", C.mode.c_str()); return 3; }
   return C.finish();
 }
